@@ -117,8 +117,8 @@ func resetShaped(rec *sim.Record) bool {
 
 // facts derived from the router's log
 type facts struct {
-	intactTo map[string][]dlv    // genuine, unmodified, decryptable datagrams delivered to "c"/"s"
-	anyTo    map[string][]dlv    // everything delivered (incl. forged / replayed / modified)
+	intactTo map[string][]dlv // genuine, unmodified, decryptable datagrams delivered to "c"/"s"
+	anyTo    map[string][]dlv // everything delivered (incl. forged / replayed / modified)
 	sentBy   map[string][]*sim.Record
 	ccTo     map[string][]ccInfo // CONNECTION_CLOSE frames delivered to an endpoint in genuine datagrams
 	ccFrom   map[string][]ccInfo // CONNECTION_CLOSE frames sent by an endpoint (delivered or not); t = send time
@@ -673,8 +673,8 @@ func judge(r *result, u *vf.Unit) *vf.Verdict {
 			seen[cc.rec] = true
 			resent++
 			if first == nil {
-				first = cc.rec.Data
-			} else if !bytes.Equal(first, cc.rec.Data) {
+				first = r.tap.ccData[cc.rec.Seq]
+			} else if !bytes.Equal(first, r.tap.ccData[cc.rec.Seq]) {
 				return r.bad("C17/closed/retransmit-differs", "%s re-sent a CONNECTION_CLOSE datagram at %v that differs from the original one", e.name, cc.t)
 			}
 		}
